@@ -8,7 +8,7 @@ of model states compatible with the trace is propagated, closing under the inter
 (`boot`, `refresh`, `arm`, `wake`, `ctxWait k`) after every event.
 
 Lines:
-  case scheds=<d;d;…> t0=<n>     d ::= p:<period>:<offset> | z | f:<period>:<offset>:<limit>
+  case scheds=<d;d;…> t0=<n>     d ::= p:<period>:<offset> | z | f:<period>:<offset>:<limit> | d:<delay>
   advance t=<n> | add sid=<n> id=<n> | remove id=<n> | entries r=<id:next:prev,…> | start | stop
   armed timer=<0|1> | woke w=<n> | quiet            (assertions from the hooks / the harness)
   begin id=<n> c=<n> | done id=<n> c=<n> | ctx k=<n> done=<0|1> | end
@@ -21,6 +21,7 @@ inductive SchedDesc where
   | periodic (p o : Nat)
   | zero
   | finite (p o lim : Nat)
+  | delay (d : Nat)
 
 def periodicNext (p o t : Nat) : Nat :=
   if t < o then o else o + ((t - o) / p + 1) * p
@@ -29,6 +30,7 @@ def SchedDesc.next : SchedDesc → Nat → Nat
   | .periodic p o, t => periodicNext p o t
   | .zero, _ => 0
   | .finite p o lim, t => let x := periodicNext p o t; if x ≤ lim then x else 0
+  | .delay d, t => t + d
 
 def parseDesc (s : String) : Option SchedDesc :=
   match s.splitOn ":" with
@@ -36,6 +38,9 @@ def parseDesc (s : String) : Option SchedDesc :=
   | ["p", p, o] => do
     let p ← p.toNat?; let o ← o.toNat?
     if p = 0 ∨ o = 0 then none else some (.periodic p o)
+  | ["d", d] => do
+    let d ← d.toNat?
+    if d = 0 then none else some (.delay d)
   | ["f", p, o, l] => do
     let p ← p.toNat?; let o ← o.toNat?; let l ← l.toNat?
     if p = 0 ∨ o = 0 then none else some (.finite p o l)
@@ -142,13 +147,13 @@ def handle (sim : Sim) (raw : String) : Sim × String :=
       | "start" => some (applyLabel S before .start)
       | "stop" => some (applyLabel S before .stop)
       | "armed" =>
-        (ln.nat? "timer").map fun b => before.filter fun s =>
+        (ln.nat? "timer").map fun b => close S (before.filter fun s =>
           match s.pc with
           | .parked tm => tm.isSome == (b == 1)
-          | _ => false
+          | _ => false)
       | "woke" =>
-        (ln.nat? "w").map fun w => before.filter fun s => s.pc == .arm && s.now == w
-      | "quiet" => some (before.filter quiescent)
+        (ln.nat? "w").map fun w => close S (before.filter fun s => s.pc == .arm && s.now == w)
+      | "quiet" => some (close S (before.filter quiescent))
       | "begin" =>
         match ln.nat? "id", ln.nat? "c" with
         | some id, some c => some (close S (before.flatMap fun s =>
